@@ -45,6 +45,7 @@ func main() {
 		to := fs.Int("t", 10, "solver timeout (s)")
 		keep := fs.Bool("keep", false, "keep smt files")
 		verbose := fs.Bool("v", false, "show every obligation")
+		changed := fs.String("changed", "", "file:line,... (relative to the repository): verify only the contracted functions an edit at these lines can affect")
 		fs.Parse(os.Args[2:])
 		if *keep {
 			os.Setenv("GOVC_KEEP", "1")
@@ -54,6 +55,13 @@ func main() {
 		e.scratch, _ = os.MkdirTemp("", "govc")
 		fmt.Printf("loaded in %.1fs; scratch %s\n", e.loadTime, e.scratch)
 		names := matchFuncs(e, fs.Arg(0))
+		if *changed != "" {
+			aff, unowned := affectedFuncs(e, parseChanged(*changed))
+			if unowned == 0 {
+				names = aff
+			}
+			fmt.Printf("affected: %d functions (%d changed lines outside function bodies)\n", len(names), unowned)
+		}
 		sort.Strings(names)
 		var all, canaries []*Oblig
 		for _, n := range names {
